@@ -59,7 +59,7 @@ func c09mActual(b c09mbox, t reflect.Type) (reflect.Value, bool) {
 		return reflect.Value{}, true
 	case b.v.Type().AssignableTo(t):
 		return b.v, true
-	case (t.Kind() == reflect.Struct || t.Kind() == reflect.Ptr) && b.v.Type().Size() == t.Size() && !c09mMisflagged(b, t):
+	case (t.Kind() == reflect.Struct || t.Kind() == reflect.Ptr) && b.v.Type().Size() == t.Size() && !c09mMisflagged(b, t) && cat.SafeRetype(b.v, t):
 		return cat.Retype(b.v, t), true
 	}
 	return reflect.Value{}, false
@@ -412,6 +412,12 @@ func TestVerifC09(t *testing.T) {
 						}
 						var mm []string
 						for _, b := range boxes {
+							if c09mMisflagged(b, d.Typ) { // a mis-flagged stored value takes part in every comparison: no calls
+								ms = append(ms, "-")
+								return
+							}
+						}
+						for _, b := range boxes {
 							r := "-"
 							if a, ok := c09mActual(b, d.Typ); ok {
 								r = cat.Catch("p:", func() string { return strconv.Itoa(d.CallIn(a)) })
@@ -440,6 +446,9 @@ func TestVerifC09(t *testing.T) {
 				})
 				if cfg != "" {
 					return cfg
+				}
+				if c09mMisflagged(ba, ta) || c09mMisflagged(bb, tb) {
+					return "ok # match=-"
 				}
 				return cat.Catch("callpanic:", func() string {
 					a, ok1 := c09mActual(ba, ta)
@@ -470,6 +479,11 @@ func TestVerifC09(t *testing.T) {
 				})
 				if cfg != "" {
 					return cfg
+				}
+				for _, b := range boxes {
+					if c09mMisflagged(b, et) {
+						return "ok # match=-"
+					}
 				}
 				return cat.Catch("callpanic:", func() string {
 					as := make([]reflect.Value, k)
